@@ -52,7 +52,7 @@ def addGraphDirect (g : String) (ig : IGraph) (d : DStore) : DR :=
 
 /-- `storage.del_graph`: `clear()`; the id counter stays -/
 def delGraph (g : String) (d : DStore) : DR :=
-  (.ok .unit, put d g ⟨[], [], (sub d g).nextId⟩)
+  (.ok .unit, put d g ⟨[], [], if Gen.StoreFlow.flow.disjointDelGraphKeepsCounter then (sub d g).nextId else 1⟩)
 
 /-- `storage.extract_graph`: a copy of whatever is stored under `g` (never `None`) -/
 def extractGraph (d : DStore) (g : String) : IGraph :=
@@ -67,14 +67,15 @@ def findMatchingNodes (g other : String) (d : DStore) : DR :=
   match listAllNodeIds g (sub d g) with
   | (.error e, _) => (.error e, d)
   | (.ok (.vals mine), _) =>
-    if (sub d other).nodes.any (fun n => !AMap.has nodeId n.attrs) then (.error .key, d)
-    else
-      let theirs := (sub d other).nodes.map (fun n => AMap.get nodeId n.attrs)
-      (.ok (.vals ((mine.filter (fun x => theirs.contains x)).eraseDups)), d)
+    let theirs := (sub d other).nodes.map (fun n => AMap.get nodeId n.attrs)
+    match fmnErr mine theirs with
+    | some e => (.error e, d)
+    | none => (.ok (.vals ((mine.filter (fun x => theirs.contains x)).eraseDups)), d)
   | (.ok _, _) => (.error .runtime, d)
 
 /-- `storage.del_all_graphs`: `self.graphs.clear()`; the per-graph id counters (`graph_node_ids`) stay -/
-def delAllGraphs (d : DStore) : DR := (.ok .unit, ⟨[], d.ids⟩)
+def delAllGraphs (d : DStore) : DR :=
+  (.ok .unit, ⟨[], if Gen.StoreFlow.flow.disjointDelAllKeepsCounters then d.ids else []⟩)
 
 def step (op : Op) (d : DStore) : DR :=
   match op with
